@@ -86,11 +86,13 @@ def readEdge (l : Str) : Option (NNode × NNode) := do
 
 def readNetwork (src : Str) : List (NNode × NNode) := (linesOf src).filterMap readEdge
 
+/-- the labels are the escaped ones (`escLabel`): what a lexical reader of the source sees; turning `#123;`/`#125;`
+    back into braces is Mermaid's business and is not claimed here -/
 def expectedEdges (all : Nat → NTask) (tasks : List Nat) : List (NNode × NNode) :=
   tasks.flatMap (fun i =>
     let t := all i
-    let me := NNode.task t.idText (t.name.filter (fun c => c != '"'))
+    let me := NNode.task t.idText (escLabel (t.name.filter (fun c => c != '"')))
     if t.preds.isEmpty then [(.start, me)]
-    else t.preds.map (fun p => (NNode.task (all p).idText ((all p).name.filter (fun c => c != '"')), me)))
+    else t.preds.map (fun p => (NNode.task (all p).idText (escLabel ((all p).name.filter (fun c => c != '"'))), me)))
 
 end Pj.Render
